@@ -51,7 +51,12 @@ impl Verified {
     }
 
     pub fn on_event(&mut self, v: &View, ev: &Ev) {
-        if let Ev::Disk { op: DiskOp::Write, path, ok: true, data, .. } = ev {
+        if let Ev::Disk { op: DiskOp::Remove, path, ok: true, .. } = ev {
+            if self.content.remove(path).map(|o| !o.is_empty()).unwrap_or(false) {
+                self.recompute();
+            }
+        }
+        if let Ev::Disk { op: DiskOp::Write | DiskOp::FileState, path, ok: true, data, .. } = ev {
             if self.by_hash.is_empty() {
                 let t = &v.out.torrent;
                 for i in 0..t.pieces() {
